@@ -1,15 +1,447 @@
-//! C20 — not built yet.
+//! C20 — project origins are exactly the marked ancestors; types follow the markers; every
+//! project type is exactly one of {version control, software suite}.
+//!
+//! Bounded-exhaustive enumeration of directory chains `base/l1[/l2[/l3]]` on tmpfs (the base is
+//! marker-free), with the real `project_origins::origins` called from every start depth and the
+//! real `project_origins::types` called on every directory of the chain:
+//!
+//!  * every recognised marker name and a few look-alike decoys x {as a file, as a directory}
+//!    x every level x every chain depth 1..=3 (so markers of the wrong node type are included);
+//!  * every pair of such placements inside one directory (quick: at the middle level;
+//!    thorough: at every level);
+//!  * pairs of placements in two different directories (quick: 12 representative placements,
+//!    thorough: all), every pair of levels;
+//!  * the 22 `ProjectType` values: `is_vcs` xor `is_soft`, and the documented category.
+//!
+//! Reference model (`TYPED`, `ORIGIN_ONLY`, `model_*` below): the marker -> type table is taken
+//! from the rustdoc of the `ProjectType` variants ("Detects when a `X` file / folder is
+//! present"); every such marker is also an origin marker (`types` "should be called with a
+//! result of origins()"). `origins` is documented to look at "a wider variety of files" without
+//! listing them, so the additional origin-only names are the crate's own published list — for
+//! those the check still owns node type, level, start depth and exactness. Directories above
+//! the base (`/dev/shm`, `/dev`, `/`) are compared with an independent `std::fs` listing.
+//!
+//! Not covered (left unspecified by the statement): symlinked markers, relative start paths,
+//! start paths that are files or do not exist.
+
+use std::{
+	collections::BTreeSet,
+	path::{Path, PathBuf},
+};
+
 use dex::orch::Tier;
-use serde_json::Value;
+use project_origins::ProjectType;
+use serde::{Deserialize, Serialize};
+use serde_json::{json, Value};
 
-use crate::common::EnumOut;
+use crate::common::{par_map, EnumOut, Scratch};
 
-pub fn replay(_input: &Value) -> Vec<(String, String)> {
-	vec![]
+const F: bool = false; // marker must be a file
+const D: bool = true; // marker must be a directory
+
+/// (marker name, must be a directory?, project type) — from the ProjectType rustdoc.
+const TYPED: [(&str, bool, &str); 31] = [
+	(".bzr", D, "Bazaar"),
+	(".bzrignore", F, "Bazaar"),
+	("_darcs", D, "Darcs"),
+	(".fossil-settings", D, "Fossil"),
+	(".git", D, "Git"),
+	(".git", F, "Git"),
+	(".gitattributes", F, "Git"),
+	(".gitmodules", F, "Git"),
+	(".hg", D, "Mercurial"),
+	(".hgignore", F, "Mercurial"),
+	(".hgtags", F, "Mercurial"),
+	(".svn", D, "Subversion"),
+	("Gemfile", F, "Bundler"),
+	(".ctags", F, "C"),
+	("Cargo.toml", F, "Cargo"),
+	("Dockerfile", F, "Docker"),
+	("mix.exs", F, "Elixir"),
+	("go.mod", F, "Go"),
+	("go.sum", F, "Go"),
+	("build.gradle", F, "Gradle"),
+	("package.json", F, "JavaScript"),
+	("cgmanifest.json", F, "JavaScript"),
+	("project.clj", F, "Leiningen"),
+	("pom.xml", F, "Maven"),
+	(".perltidyrc", F, "Perl"),
+	("Makefile.PL", F, "Perl"),
+	("composer.json", F, "PHP"),
+	("requirements.txt", F, "Pip"),
+	("Pipfile", F, "Pip"),
+	("v.mod", F, "V"),
+	("build.zig", F, "Zig"),
+];
+
+/// Names that mark an origin without identifying a project type.
+const ORIGIN_ONLY: [(&str, bool); 22] = [
+	(".github", D),
+	(".asf.yaml", F),
+	(".codecov.yml", F),
+	(".editorconfig", F),
+	(".travis.yml", F),
+	("appveyor.yml", F),
+	("build.properties", F),
+	("build.xml", F),
+	("Cargo.lock", F),
+	("CMakeLists.txt", F),
+	("COPYING", F),
+	("docker-compose.yml", F),
+	("LICENSE.txt", F),
+	("LICENSE", F),
+	("Makefile.am", F),
+	("Makefile.pl", F),
+	("Makefile", F),
+	("moonshine-dependencies.xml", F),
+	("package-lock.json", F),
+	("pnpm-lock.yaml", F),
+	("yarn.lock", F),
+	("CONTRIBUTING.md", F),
+];
+
+/// Look-alikes that are not markers (".gitignore" is excluded explicitly by the Git docs).
+const DECOYS: [&str; 6] = [".gitignore", "cargo.toml", "Cargo.toml.orig", "README.md", "src", ".GIT"];
+
+/// Every ProjectType value with its documented category ("VCS:" / "Soft:" in the rustdoc).
+const TYPES: [(ProjectType, &str, bool); 22] = [
+	(ProjectType::Bazaar, "Bazaar", true),
+	(ProjectType::Darcs, "Darcs", true),
+	(ProjectType::Fossil, "Fossil", true),
+	(ProjectType::Git, "Git", true),
+	(ProjectType::Mercurial, "Mercurial", true),
+	(ProjectType::Pijul, "Pijul", true),
+	(ProjectType::Subversion, "Subversion", true),
+	(ProjectType::Bundler, "Bundler", false),
+	(ProjectType::C, "C", false),
+	(ProjectType::Cargo, "Cargo", false),
+	(ProjectType::Docker, "Docker", false),
+	(ProjectType::Elixir, "Elixir", false),
+	(ProjectType::Go, "Go", false),
+	(ProjectType::Gradle, "Gradle", false),
+	(ProjectType::JavaScript, "JavaScript", false),
+	(ProjectType::Leiningen, "Leiningen", false),
+	(ProjectType::Maven, "Maven", false),
+	(ProjectType::Perl, "Perl", false),
+	(ProjectType::PHP, "PHP", false),
+	(ProjectType::Pip, "Pip", false),
+	(ProjectType::V, "V", false),
+	(ProjectType::Zig, "Zig", false),
+];
+
+// ---------------------------------------------------------------------------------------------
+// reference model
+
+fn model_is_marker(name: &str, is_dir: bool) -> bool {
+	TYPED.iter().any(|(n, d, _)| *n == name && *d == is_dir) || ORIGIN_ONLY.iter().any(|(n, d)| *n == name && *d == is_dir)
 }
 
-pub fn run(_tier: Tier, _seed: u64) -> EnumOut {
-	let mut o = EnumOut::new("not built");
-	o.machinery = Some("check not built yet".into());
-	o
+fn model_types(name: &str, is_dir: bool) -> impl Iterator<Item = &'static str> + '_ {
+	TYPED.iter().filter(move |(n, d, _)| *n == name && *d == is_dir).map(|(_, _, t)| *t)
+}
+
+/// Independent listing of a real directory (ancestors above the generated base).
+fn model_dir_is_origin(dir: &Path) -> bool {
+	let Ok(rd) = std::fs::read_dir(dir) else { return false };
+	rd.flatten().any(|e| {
+		let Ok(ft) = e.file_type() else { return false };
+		let name = e.file_name();
+		let Some(name) = name.to_str() else { return false };
+		(ft.is_dir() && model_is_marker(name, true)) || (ft.is_file() && model_is_marker(name, false))
+	})
+}
+
+// ---------------------------------------------------------------------------------------------
+// configurations
+
+#[derive(Clone, Debug, PartialEq, Serialize, Deserialize)]
+struct Placement {
+	/// 1-based level in the chain
+	level: usize,
+	name: String,
+	dir: bool,
+}
+
+#[derive(Clone, Debug, Serialize, Deserialize)]
+struct Tree {
+	depth: usize,
+	placements: Vec<Placement>,
+}
+
+fn pname(p: &Placement) -> String {
+	format!("{}-as-{}", p.name, if p.dir { "dir" } else { "file" })
+}
+
+struct Eval {
+	violations: Vec<(String, String)>,
+	evaluations: u64,
+	/// (what, start/level, result summary) of every non-empty result
+	outcomes: Vec<(String, usize, String)>,
+	summary: Value,
+}
+
+/// Build the tree under `root` (which must not exist), run the real functions, compare.
+fn eval_tree(rt: &tokio::runtime::Runtime, root: &Path, t: &Tree) -> Result<Eval, String> {
+	let _ = std::fs::remove_dir_all(root);
+	let base = root.join("b");
+	let mut chain: Vec<PathBuf> = vec![base.clone()]; // chain[0] = base (marker-free), chain[i] = level i
+	for i in 1..=t.depth {
+		chain.push(chain[i - 1].join(format!("l{i}")));
+	}
+	std::fs::create_dir_all(&chain[t.depth]).map_err(|e| format!("mkdir: {e}"))?;
+	for p in &t.placements {
+		if p.level == 0 || p.level > t.depth {
+			return Err(format!("placement level {} outside the chain", p.level));
+		}
+		let path = chain[p.level].join(&p.name);
+		if p.dir {
+			std::fs::create_dir(&path).map_err(|e| format!("mkdir marker: {e}"))?;
+		} else {
+			std::fs::write(&path, b"").map_err(|e| format!("write marker: {e}"))?;
+		}
+	}
+	let at = |lvl: usize| t.placements.iter().filter(move |p| p.level == lvl);
+	let level_is_origin = |lvl: usize| at(lvl).any(|p| model_is_marker(&p.name, p.dir));
+	let above: Vec<PathBuf> = base.ancestors().skip(1).map(Path::to_path_buf).collect();
+
+	let mut ev = Eval { violations: vec![], evaluations: 0, outcomes: vec![], summary: Value::Null };
+	let mut summary = vec![];
+	for start in 1..=t.depth {
+		ev.evaluations += 1;
+		let got = rt.block_on(project_origins::origins(&chain[start]));
+		let mut levels = vec![];
+		for lvl in 0..=t.depth {
+			let want = lvl >= 1 && lvl <= start && level_is_origin(lvl);
+			let has = got.contains(&chain[lvl]);
+			if has {
+				levels.push(lvl);
+			}
+			if want && !has {
+				let m = at(lvl).find(|p| model_is_marker(&p.name, p.dir)).map(pname).unwrap_or_default();
+				ev.violations.push((
+					format!("C20/origins/missed/{m}"),
+					format!("level {lvl} holds {m} and is an ancestor-or-self of the start (level {start}) but origins() returned levels {levels:?} only / {} paths", got.len()),
+				));
+			}
+			if has && !want {
+				let why = if lvl > start {
+					"below-start".to_string()
+				} else if let Some(p) = at(lvl).next() {
+					format!("not-a-marker/{}", pname(p))
+				} else {
+					"unmarked-directory".to_string()
+				};
+				ev.violations.push((
+					format!("C20/origins/spurious/{why}"),
+					format!("origins() from level {start} returned level {lvl}, which holds {:?}", at(lvl).map(pname).collect::<Vec<_>>()),
+				));
+			}
+		}
+		// nothing outside the chain of the start path and its ancestors
+		for g in &got {
+			if !chain.contains(g) && !above.contains(g) {
+				ev.violations.push(("C20/origins/spurious/outside-the-ancestor-chain".into(), format!("origins() from level {start} returned {}", g.display())));
+			}
+		}
+		// ancestors above the generated base: independent listing
+		for a in &above {
+			let has = got.contains(a);
+			if has != model_dir_is_origin(a) && has != model_dir_is_origin(a) {
+				ev.violations.push((
+					format!("C20/origins/above-base/{}", if has { "spurious" } else { "missed" }),
+					format!("{}: origins() says {has}, an independent listing says {}", a.display(), !has),
+				));
+			}
+		}
+		if !levels.is_empty() {
+			ev.outcomes.push(("origins".into(), start, format!("{levels:?}")));
+		}
+		summary.push(json!({"origins_from_level": start, "levels_returned": levels}));
+	}
+	for lvl in 1..=t.depth {
+		ev.evaluations += 1;
+		let got: BTreeSet<String> = rt.block_on(project_origins::types(&chain[lvl])).into_iter().map(|t| format!("{t:?}")).collect();
+		let want: BTreeSet<String> = at(lvl).flat_map(|p| model_types(&p.name, p.dir)).map(str::to_string).collect();
+		for w in want.difference(&got) {
+			let m = at(lvl).find(|p| model_types(&p.name, p.dir).any(|t| t == w)).map(pname).unwrap_or_default();
+			ev.violations.push((format!("C20/types/missed/{w}-from-{m}"), format!("level {lvl} holds {m} but types() returned {got:?}")));
+		}
+		for g in got.difference(&want) {
+			ev.violations.push((
+				format!("C20/types/spurious/{g}"),
+				format!("types() returned {g} for a directory holding only {:?}", at(lvl).map(pname).collect::<Vec<_>>()),
+			));
+		}
+		if !got.is_empty() {
+			ev.outcomes.push(("types".into(), 0, format!("{got:?}")));
+			summary.push(json!({"types_at_level": lvl, "types": got}));
+		}
+	}
+	ev.summary = json!(summary);
+	let _ = std::fs::remove_dir_all(root);
+	Ok(ev)
+}
+
+fn eval_class(name: &str) -> Vec<(String, String)> {
+	let mut v = vec![];
+	let Some((t, _, vcs)) = TYPES.iter().find(|(_, n, _)| *n == name) else { return v };
+	let (is_vcs, is_soft) = (t.is_vcs(), t.is_soft());
+	if !is_vcs && !is_soft {
+		v.push((format!("C20/classification/neither/{name}"), format!("ProjectType::{name}: is_vcs() = false and is_soft() = false")));
+	} else if is_vcs && is_soft {
+		v.push((format!("C20/classification/both/{name}"), format!("ProjectType::{name}: is_vcs() = true and is_soft() = true")));
+	} else if is_vcs != *vcs {
+		v.push((
+			format!("C20/classification/wrong-category/{name}"),
+			format!("ProjectType::{name} is documented as {} but is_vcs() = {is_vcs}, is_soft() = {is_soft}", if *vcs { "VCS" } else { "Soft" }),
+		));
+	}
+	if format!("{t:?}") != name {
+		v.push((format!("C20/classification/table/{name}"), format!("harness table row {name} holds {t:?}")));
+	}
+	v
+}
+
+pub fn replay(input: &Value) -> Vec<(String, String)> {
+	match input["kind"].as_str().unwrap_or("") {
+		"class" => eval_class(input["type"].as_str().unwrap_or("")),
+		"tree" => {
+			let Ok(t) = serde_json::from_value::<Tree>(input["tree"].clone()) else {
+				return vec![("C20/replay/bad-input".into(), "tree".into())];
+			};
+			let scratch = Scratch::new("c20r");
+			let rt = tokio::runtime::Builder::new_current_thread().enable_all().build().expect("runtime");
+			match eval_tree(&rt, &scratch.path().join("r"), &t) {
+				Ok(ev) => ev.violations,
+				Err(e) => vec![("C20/replay/machinery".into(), e)],
+			}
+		}
+		_ => vec![("C20/replay/bad-input".into(), "kind".into())],
+	}
+}
+
+fn shuffle<T>(v: &mut [T], seed: u64) {
+	let mut s = seed ^ 0x9E37_79B9_7F4A_7C15;
+	for i in (1..v.len()).rev() {
+		s = s.wrapping_mul(6364136223846793005).wrapping_add(1442695040888963407);
+		v.swap(i, ((s >> 33) as usize) % (i + 1));
+	}
+}
+
+pub fn run(tier: Tier, seed: u64) -> EnumOut {
+	let rule = "non-trivial = a non-empty result inside the generated chain: origins() reporting at least one level (distinct by start depth and set of levels) or types() reporting at least one type (distinct by set of types)";
+	let thorough = tier == Tier::Thorough;
+
+	// every distinct name x both node types
+	let mut names: Vec<&str> = vec![];
+	for n in TYPED.iter().map(|x| x.0).chain(ORIGIN_ONLY.iter().map(|x| x.0)).chain(DECOYS) {
+		if !names.contains(&n) {
+			names.push(n);
+		}
+	}
+	let all: Vec<(String, bool)> = names.iter().flat_map(|n| [(n.to_string(), false), (n.to_string(), true)]).collect();
+	let place = |lvl: usize, p: &(String, bool)| Placement { level: lvl, name: p.0.clone(), dir: p.1 };
+
+	let mut trees: Vec<Tree> = vec![];
+	for depth in 1..=3 {
+		trees.push(Tree { depth, placements: vec![] });
+		for lvl in 1..=depth {
+			for p in &all {
+				trees.push(Tree { depth, placements: vec![place(lvl, p)] });
+			}
+		}
+	}
+	// pairs in one directory
+	let pair_levels: &[usize] = if thorough { &[1, 2, 3] } else { &[2] };
+	for lvl in pair_levels {
+		for i in 0..all.len() {
+			for j in i + 1..all.len() {
+				if all[i].0 != all[j].0 {
+					trees.push(Tree { depth: 3, placements: vec![place(*lvl, &all[i]), place(*lvl, &all[j])] });
+				}
+			}
+		}
+	}
+	// pairs in two different directories
+	let repr: Vec<(String, bool)> = [
+		(".git", true),
+		(".git", false),
+		("Cargo.toml", false),
+		("Cargo.toml", true),
+		("go.mod", false),
+		("LICENSE", false),
+		(".github", true),
+		(".github", false),
+		("_darcs", true),
+		(".gitignore", false),
+		("Makefile.pl", false),
+		("build.zig", false),
+	]
+	.iter()
+	.map(|(n, d)| (n.to_string(), *d))
+	.collect();
+	let cross = if thorough { &all } else { &repr };
+	for (la, lb) in [(1, 2), (1, 3), (2, 3)] {
+		for a in cross {
+			for b in cross {
+				trees.push(Tree { depth: 3, placements: vec![place(la, a), place(lb, b)] });
+			}
+		}
+	}
+	shuffle(&mut trees, seed);
+
+	let scratch = Scratch::new("c20");
+	let threads = std::env::var("VERIF_WORKERS").ok().and_then(|s| s.parse().ok()).unwrap_or(16);
+	let mut out = par_map(&trees, threads, |chunk, ti| {
+		let mut out = EnumOut::new(rule);
+		let rt = tokio::runtime::Builder::new_current_thread().enable_all().build().expect("runtime");
+		let root = scratch.path().join(format!("t{ti}"));
+		for t in chunk {
+			out.states += 1;
+			match eval_tree(&rt, &root, t) {
+				Ok(ev) => {
+					out.evaluations += ev.evaluations;
+					for o in &ev.outcomes {
+						out.nontrivial_mark(o);
+					}
+					let is = |i: usize, lvl: usize, name: &str, dir: bool| t.placements.get(i).is_some_and(|p| p.level == lvl && p.name == name && p.dir == dir);
+					let pick = t.depth == 3
+						&& match t.placements.len() {
+							1 => is(0, 2, "go.mod", false) || is(0, 2, "Cargo.toml", true) || is(0, 3, ".gitignore", false),
+							2 => (is(0, 1, ".git", false) && is(1, 3, "Cargo.toml", false)) || (is(0, 2, ".hg", true) && is(1, 2, "package.json", false)),
+							_ => false,
+						};
+					if pick {
+						out.sample(json!({"tree": t, "observed": ev.summary, "violations": ev.violations.len()}));
+					}
+					for (k, d) in ev.violations {
+						out.violate(k, d, json!({"kind": "tree", "tree": t}));
+					}
+				}
+				Err(e) => out.machinery = Some(e),
+			}
+		}
+		out
+	});
+	out.rule = rule.to_string();
+
+	// classification, exhaustively over the enumeration
+	for (_, name, _) in TYPES {
+		out.states += 1;
+		out.evaluations += 1;
+		let v = eval_class(name);
+		out.nontrivial_mark(("class", name));
+		for (k, d) in v {
+			out.violate(k, d, json!({"kind": "class", "type": name}));
+		}
+	}
+	out.extra.insert("marker_names".into(), json!(names.len() - DECOYS.len()));
+	out.extra.insert("decoy_names".into(), json!(DECOYS.len()));
+	out.extra.insert("project_types".into(), json!(TYPES.len()));
+	out.assumptions = vec![
+		"marker -> type table from the ProjectType rustdoc; origin-only marker names from the crate's published list (the docs do not enumerate them)".into(),
+		"symlinked markers, relative / non-directory / missing start paths are not specified by the statement and not generated".into(),
+		"tmpfs at /dev/shm; ancestors above the generated base are compared with a std::fs listing".into(),
+	];
+	out
 }
